@@ -147,42 +147,76 @@ let hd a =
        Some (h ^ " " ^ back))
   | _ -> Some "HeaderErr -"
 
+let triple c w back = Some (c, w, back)
+let codec kind a0 =
+  match kind with
+  | "ic" -> triple (I "X") (enc_info_char (byte_of_hex a0)) (fun bs -> rfail show_sval (dec_info_char bs))
+  | "icv" -> triple (I "X") (enc_info_chars (opt_char_list a0)) (fun bs -> rfail show_sval (dec_info_chars bs))
+  | "isv" -> triple (I "X") (enc_info_strs (opt_hex_list a0)) (fun bs -> rfail show_sval (dec_info_strs bs))
+  | "fc" -> let v = per_sample byte_of_hex a0 in
+      triple (F ("X", List.length v)) (enc_fmt_chars v) (fun bs -> rfail (show_samples (fun c -> "c" ^ hexc c)) (dec_fmt_chars (nat_of_int (List.length v)) bs))
+  | "fcv" -> let v = per_sample opt_char_list a0 in
+      triple (F ("X", List.length v)) (enc_fmt_char_arrays v) (fun bs -> rfail (show_samples (show_list "C" hexc)) (dec_fmt_char_arrays (nat_of_int (List.length v)) bs))
+  | "fs" -> let v = per_sample bytes_of_hex a0 in
+      triple (F ("X", List.length v)) (enc_fmt_strings v) (fun bs -> rfail (show_samples (fun x -> "s" ^ hex_of_bytes x)) (dec_fmt_strings (nat_of_int (List.length v)) bs))
+  | "fsv" -> let v = per_sample opt_hex_list a0 in
+      triple (F ("X", List.length v)) (enc_fmt_str_arrays v) (fun bs -> rfail (show_samples (show_list "S" hex_of_bytes)) (dec_fmt_str_arrays (nat_of_int (List.length v)) bs))
+  | "ii" -> triple (I "X") (enc_info_int (z_of_dec a0)) (fun bs -> rres show_rvalue (dec_info_int bs))
+  | "iv" -> triple (I "X") (enc_info_ints (opt_list a0)) (fun bs -> rres show_rvalue (dec_info_ints bs))
+  | "if" -> triple (I "X") (enc_info_float (z_of_dec a0)) (fun bs -> rres show_rvalue (dec_info_float bs))
+  | "ifv" -> triple (I "X") (enc_info_floats (opt_list a0)) (fun bs -> rres show_rvalue (dec_info_floats bs))
+  | "im" ->
+      triple (I "X") enc_info_missing (fun bs -> match a0 with
+        | "Integer" -> rres show_rvalue (dec_info_int bs)
+        | "Float" -> rres show_rvalue (dec_info_float bs)
+        | _ -> rres (function None -> "." | Some x -> "s" ^ hex_of_bytes x) (dec_info_string bs))
+  | "is" -> triple (I "X") (enc_info_string (bytes_of_hex a0))
+              (fun bs -> rres (function None -> "." | Some x -> "s" ^ hex_of_bytes x) (dec_info_string bs))
+  | "fi" -> let v = scalars a0 in
+      triple (F ("X", List.length v)) (enc_fmt_int v) (fun bs -> rres (show_back true) (dec_fmt_int (nat_of_int (List.length v)) bs))
+  | "fv" -> let v = samples a0 in
+      triple (F ("X", List.length v)) (enc_fmt_ints v) (fun bs -> rres (show_back true) (dec_fmt_ints (nat_of_int (List.length v)) bs))
+  | "ff" -> let v = scalars a0 in
+      triple (F ("X", List.length v)) (enc_fmt_float v) (fun bs -> rres (show_back false) (dec_fmt_float (nat_of_int (List.length v)) bs))
+  | "ffv" -> let v = samples a0 in
+      triple (F ("X", List.length v)) (enc_fmt_floats v) (fun bs -> rres (show_back false) (dec_fmt_floats (nat_of_int (List.length v)) bs))
+  | "gt" -> let v = List.map parse_gt (split_on ';' a0) in
+      triple (F ("GT", List.length v)) (enc_gt v) (fun bs -> rres (fun l -> String.concat ";" (List.map show_gt l)) (dec_gt (nat_of_int (List.length v)) bs))
+  | _ -> None
+
+
+(* `blk`: a record with several INFO fields and several FORMAT series: `kind~arg|kind~arg` (`e` =
+   none); keys X0.. / Y0.. (GT for a gt series).  obs = the whole record as written, then every
+   field read back through dec_record's walk and the field's own value decoder *)
+let blk a =
+  let specs s = if s = "e" then [] else
+    List.map (fun t -> match split_on '~' t with [k; v] -> (k, v) | _ -> failwith "spec") (split_on '|' s) in
+  let infos = List.mapi (fun j (k, v) -> (Printf.sprintf "X%d" j, k, v)) (specs a.(0)) in
+  let fmts = List.mapi (fun j (k, v) -> ((if k = "gt" then "GT" else Printf.sprintf "Y%d" j), k, v)) (specs a.(1)) in
+  let ns = int_of_string a.(2) in
+  let cod (key, k, v) = match codec k v with Some (_, w, back) -> (key, w, back) | None -> failwith "kind" in
+  let ic = List.map cod infos and fc = List.map cod fmts in
+  let strings = get_map (build_strings (List.map (fun (key, _, _) -> (ascii key, None)) (ic @ fc)))
+  and contigs = get_map (build_contigs [(ascii "c", None)]) in
+  let r = enc_record strings contigs (micro_site ns)
+            (List.map (fun (key, w, _) -> (ascii key, w)) ic) (List.map (fun (key, w, _) -> (ascii key, w)) fc) (ns > 0 && fc <> []) in
+  match wres r with
+  | None, h -> Some (h ^ " -")
+  | Some bs, h ->
+    let back = (match dec_record strings contigs bs with
+      | None -> "Fail"
+      | Some (((_, di), df), _) ->
+        let show l cs =
+          if List.length l <> List.length cs then ["Fail"] else
+          List.map2 (fun (k, vb) (key, _, back) -> if text_of k <> key then "Fail" else key ^ "=" ^ back vb) l cs in
+        String.concat "|" (show di ic) ^ "||" ^ String.concat "|" (show df fc)) in
+    Some (h ^ " " ^ back)
+
 let handle kind a =
   match kind with
   | "hd" -> hd a
   | "sm" -> let d = sm_both (sm_lines a.(0)) (sm_lines a.(1)) in Some ("W=" ^ d ^ "|R=" ^ d)
-  | "ic" -> both (I "X") (enc_info_char (byte_of_hex a.(0))) (fun bs -> rfail show_sval (dec_info_char bs))
-  | "icv" -> both (I "X") (enc_info_chars (opt_char_list a.(0))) (fun bs -> rfail show_sval (dec_info_chars bs))
-  | "isv" -> both (I "X") (enc_info_strs (opt_hex_list a.(0))) (fun bs -> rfail show_sval (dec_info_strs bs))
-  | "fc" -> let v = per_sample byte_of_hex a.(0) in
-      both (F ("X", List.length v)) (enc_fmt_chars v) (fun bs -> rfail (show_samples (fun c -> "c" ^ hexc c)) (dec_fmt_chars (nat_of_int (List.length v)) bs))
-  | "fcv" -> let v = per_sample opt_char_list a.(0) in
-      both (F ("X", List.length v)) (enc_fmt_char_arrays v) (fun bs -> rfail (show_samples (show_list "C" hexc)) (dec_fmt_char_arrays (nat_of_int (List.length v)) bs))
-  | "fs" -> let v = per_sample bytes_of_hex a.(0) in
-      both (F ("X", List.length v)) (enc_fmt_strings v) (fun bs -> rfail (show_samples (fun x -> "s" ^ hex_of_bytes x)) (dec_fmt_strings (nat_of_int (List.length v)) bs))
-  | "fsv" -> let v = per_sample opt_hex_list a.(0) in
-      both (F ("X", List.length v)) (enc_fmt_str_arrays v) (fun bs -> rfail (show_samples (show_list "S" hex_of_bytes)) (dec_fmt_str_arrays (nat_of_int (List.length v)) bs))
-  | "ii" -> both (I "X") (enc_info_int (z_of_dec a.(0))) (fun bs -> rres show_rvalue (dec_info_int bs))
-  | "iv" -> both (I "X") (enc_info_ints (opt_list a.(0))) (fun bs -> rres show_rvalue (dec_info_ints bs))
-  | "if" -> both (I "X") (enc_info_float (z_of_dec a.(0))) (fun bs -> rres show_rvalue (dec_info_float bs))
-  | "ifv" -> both (I "X") (enc_info_floats (opt_list a.(0))) (fun bs -> rres show_rvalue (dec_info_floats bs))
-  | "im" ->
-      both (I "X") enc_info_missing (fun bs -> match a.(0) with
-        | "Integer" -> rres show_rvalue (dec_info_int bs)
-        | "Float" -> rres show_rvalue (dec_info_float bs)
-        | _ -> rres (function None -> "." | Some x -> "s" ^ hex_of_bytes x) (dec_info_string bs))
-  | "is" -> both (I "X") (enc_info_string (bytes_of_hex a.(0)))
-              (fun bs -> rres (function None -> "." | Some x -> "s" ^ hex_of_bytes x) (dec_info_string bs))
-  | "fi" -> let v = scalars a.(0) in
-      both (F ("X", List.length v)) (enc_fmt_int v) (fun bs -> rres (show_back true) (dec_fmt_int (nat_of_int (List.length v)) bs))
-  | "fv" -> let v = samples a.(0) in
-      both (F ("X", List.length v)) (enc_fmt_ints v) (fun bs -> rres (show_back true) (dec_fmt_ints (nat_of_int (List.length v)) bs))
-  | "ff" -> let v = scalars a.(0) in
-      both (F ("X", List.length v)) (enc_fmt_float v) (fun bs -> rres (show_back false) (dec_fmt_float (nat_of_int (List.length v)) bs))
-  | "ffv" -> let v = samples a.(0) in
-      both (F ("X", List.length v)) (enc_fmt_floats v) (fun bs -> rres (show_back false) (dec_fmt_floats (nat_of_int (List.length v)) bs))
-  | "gt" -> let v = List.map parse_gt (split_on ';' a.(0)) in
-      both (F ("GT", List.length v)) (enc_gt v) (fun bs -> rres (fun l -> String.concat ";" (List.map show_gt l)) (dec_gt (nat_of_int (List.length v)) bs))
-  | _ -> None
+  | "blk" -> blk a
+  | _ -> (match codec kind a.(0) with Some (c, w, back) -> both c w back | None -> None)
 
 let () = run_driver handle
